@@ -146,3 +146,99 @@ def backwardErrorP2 (degR degC dR dC : Nat) (lamR lamC : Rat) (iasls : Bool) (la
   (resid, anorm * maxM C + maxM rhs)
 
 end PbVerif.PSpline
+
+namespace PbVerif.PSpline
+open PbVerif.BSpline PbVerif.Whittaker PbVerif.Banded
+
+/-! ### the systems of `pspline_iasls`, `pspline_drpls`, `pspline_aspls` (`spline.py`) as handed to
+`PenalizedSystem.solve` by `PSpline.solve_pspline` (`_spline_utils.py`)
+
+`x - y` on `Nat` below is the code's own rule: `_pad_diagonals` ignores a non-positive `padding = spline_degree - diff_order`. -/
+
+/-- `_lower_to_full(ab)` (`_banded_utils.py`): the strictly lower bands flipped on top, band k shifted right by k -/
+def lowerToFullQ (ab : List (List Rat)) : List (List Rat) :=
+  (ab.tail.reverse.zipIdx.map fun (p : List Rat × Nat) => shiftRightQ (ab.length - 1 - p.2) p.1) ++ ab
+
+/-- `_add_diagonals(a, b, lower_only=False)`: the array with fewer rows gets half of the missing rows on top and half
+below (the code raises `ValueError` when the mismatch is odd: the theorems assume both row counts odd) -/
+def addDiagonalsFull (a b : List (List Rat)) (n : Nat) : List (List Rat) :=
+  let k := max a.length b.length
+  addB (padFull a ((k - a.length) / 2) n) (padFull b ((k - b.length) / 2) n)
+
+/-- `pspline.penalty` of a `PSpline` with `lower = False`: `lam * _pad_diagonals(original_diagonals, deg - d, lower_only=False)`,
+`original_diagonals` reversed when `reverse_diags=True` -/
+def penFullP (nb d deg : Nat) (lam : Rat) (reversed : Bool) : List (List Rat) :=
+  let o := bandsQ nb d false
+  scale lam (padFull (if reversed then o.reverse else o) (deg - d) nb)
+
+/-- `np.interp(_basis_midpoints(knots, deg), x, v)`: a per-point array mapped onto the coefficient grid -/
+def interpMid (knots xs vs : List Rat) (deg : Nat) : List Rat := (basisMidpoints knots deg).map (npInterp xs vs)
+
+/-- `spline.py: pspline_drpls` — one pass of the loop: `penalty_bands = pspline.num_bands` (before `add_penalty`),
+`diff_n_diagonals = -eta * pspline.penalty[::-1]`, `pspline.add_penalty(diff_penalty_diagonals(nb, 1, False))`,
+`_shift_rows(diff_n_diagonals * wt, u, u)`, `_add_diagonals(pspline.penalty, ·, lower_only=False)`; then in
+`solve_pspline`: `_lower_to_full(B'WB)` + penalty.  `wt` = the weights interpolated at the basis midpoints. -/
+def asmPDrpls (deg nb d : Nat) (lam eta : Rat) (rows : List Row) (ys ws wt : List Rat) : List (List Rat) × List Rat :=
+  let r := btbBty deg nb rows ys ws
+  let pen := penFullP nb d deg lam false
+  let u := d + (deg - d)
+  let diffn := scale (-eta) pen.reverse
+  let pen1 := addDiagonalsFull pen (bandsQ nb 1 false) nb
+  let dw := shiftRows (colScale diffn wt) u u
+  (addDiagonalsFull (lowerToFullQ r.1) (addDiagonalsFull pen1 dw nb) nb, r.2)
+
+/-- `spline.py: pspline_aspls` — `reverse_diags=True`; `alpha_penalty = _shift_rows(pspline.penalty * at, u, u)` with
+`u = pspline.num_bands`, handed to `solve_pspline` as the penalty.  `at` = alpha interpolated at the basis midpoints. -/
+def asmPAspls (deg nb d : Nat) (lam : Rat) (rows : List Row) (ys ws at_ : List Rat) : List (List Rat) × List Rat :=
+  let r := btbBty deg nb rows ys ws
+  let u := d + (deg - d)
+  (addDiagonalsFull (lowerToFullQ r.1) (shiftRows (colScale (penFullP nb d deg lam true) at_) u u) nb, r.2)
+
+/-- column c of the design matrix, as a dense vector over the data points -/
+def colB (deg : Nat) (rows : List Row) (c : Nat) : List Rat := rows.map fun r => r.at deg c
+
+/-- ALL lower bands 0 … nb−1 of `B' (lam_1 D₁'D₁) B` (`D₁'D₁` on the N data points), band (r, c) = `Σ_k B[k,c+r]·(lam_1 D₁'D₁ B[:,c])[k]`.
+In the code this is `_sparse_to_banded(B.T @ dia(lam_1·diff_penalty_diagonals(N,1,False)) @ B, nb)` (lower half when
+`pspline.lower`); its bandwidth depends on how far apart consecutive data points sit in the knot grid, and SciPy stores only the
+diagonals up to the last non-zero one: the model keeps every band (the missing ones are zero rows, which denote nothing). -/
+def d1Band (deg nb : Nat) (lam1 : Rat) (rows : List Row) : List (List Rat) :=
+  let cols := (List.range nb).map fun (c : Nat) => colB deg rows c
+  let pcols := cols.map fun v => (d1y v).map (lam1 * ·)
+  (List.range nb).map fun (r : Nat) => (List.range nb).map fun (c : Nat) =>
+    sumL (List.zipWith (· * ·) (cols.getD (c + r) []) (pcols.getD c []))
+
+/-- `partial_rhs = (B.T @ lam_1 D₁'D₁) @ y` -/
+def d1Rhs (deg nb : Nat) (lam1 : Rat) (rows : List Row) (ys : List Rat) : List Rat :=
+  (List.range nb).map fun (c : Nat) => sumL (List.zipWith (· * ·) (colB deg rows c) ((d1y ys).map (lam1 * ·)))
+
+/-- `spline.py: pspline_iasls` — `pspline.add_penalty(d1_penalty)`, then `solve_pspline(y, weight_array**2, rhs_extra=partial_rhs)`;
+`lower` = `pspline.lower` (True unless `banded_solver = 4`) -/
+def asmPIasls (deg nb d : Nat) (lam lam1 : Rat) (rows : List Row) (ys ws : List Rat) (lower : Bool) : List (List Rat) × List Rat :=
+  let r := btbBty deg nb rows ys (ws.map fun v => v * v)
+  let d1 := d1Band deg nb lam1 rows
+  let rhs := List.zipWith (· + ·) r.2 (d1Rhs deg nb lam1 rows ys)
+  if lower then
+    (addDiagonalsLower r.1 (addDiagonalsLower (scale lam (padLower (bandsQ nb d true) (deg - d) nb)) d1 nb) nb, rhs)
+  else
+    (addDiagonalsFull (lowerToFullQ r.1) (addDiagonalsFull (penFullP nb d deg lam false) (lowerToFullQ d1) nb) nb, rhs)
+
+/-! documented matrices -/
+/-- dense `(B' D₁'D₁ B)[i,j]` and `(B' D₁'D₁ y)[c]` from the definitions -/
+def btd1bAt (deg : Nat) (rows : List Row) (i j : Nat) : Rat :=
+  sumL ((List.range rows.length).map fun (k : Nat) => sumL ((List.range rows.length).map fun (l : Nat) =>
+    (rows.map fun r => r.at deg i).getD k 0 * dtdQ rows.length 1 k l * (rows.map fun r => r.at deg j).getD l 0))
+def btd1yAt (deg : Nat) (rows : List Row) (ys : List Rat) (c : Nat) : Rat :=
+  sumL ((List.range rows.length).map fun (k : Nat) => sumL ((List.range rows.length).map fun (l : Nat) =>
+    (rows.map fun r => r.at deg c).getD k 0 * dtdQ rows.length 1 k l * ys.getD l 0))
+
+/-- `B'W²B + λ₁ B'D₁'D₁B + λ D'D` -/
+def docPIasls (deg nb d : Nat) (lam lam1 : Rat) (rows : List Row) (ws : List Rat) (i j : Nat) : Rat :=
+  btwbAt deg rows (ws.map fun v => v * v) i j + lam1 * btd1bAt deg rows i j + lam * dtdQ nb d i j
+/-- `B'WB + D₁'D₁ + λ (I − η W̃) D'D` -/
+def docPDrpls (deg nb d : Nat) (lam eta : Rat) (rows : List Row) (ws wt : List Rat) (i j : Nat) : Rat :=
+  btwbAt deg rows ws i j + dtdQ nb 1 i j + lam * (1 - eta * wt.getD i 0) * dtdQ nb d i j
+/-- `B'WB + λ diag(α̃) D'D` -/
+def docPAspls (deg nb d : Nat) (lam : Rat) (rows : List Row) (ws at_ : List Rat) (i j : Nat) : Rat :=
+  btwbAt deg rows ws i j + lam * at_.getD i 0 * dtdQ nb d i j
+
+end PbVerif.PSpline
